@@ -2,6 +2,7 @@ package main
 
 import (
 	"verif/harness/mon/c03"
+	"verif/harness/mon/c05"
 	"verif/harness/mon/c06"
 	"verif/harness/mon/c07"
 	"verif/harness/mon/c08"
@@ -11,6 +12,7 @@ import (
 	"verif/harness/mon/c12"
 	"verif/harness/mon/c13"
 	"verif/harness/mon/c14"
+	"verif/harness/mon/c15"
 	"verif/harness/mon/c16"
 	"verif/harness/mon/c17"
 	"verif/harness/mon/c19"
@@ -18,6 +20,7 @@ import (
 
 func init() {
 	register("C03", c03.Run)
+	register("C05", c05.Run)
 	register("C06", c06.Run)
 	register("C07", c07.Run)
 	register("C08", c08.Run)
@@ -27,6 +30,7 @@ func init() {
 	register("C12", c12.Run)
 	register("C13", c13.Run)
 	register("C14", c14.Run)
+	register("C15", c15.Run)
 	register("C16", c16.Run)
 	register("C17", c17.Run)
 	register("C19", c19.Run)
